@@ -9,7 +9,7 @@ use log::{error, info};
 use crate::cache::command::{CommandStatus, CommandType};
 use crate::cache::command::acknowledgement::CommandAcknowledgement;
 use crate::cache::command::error::CommandSendError;
-use crate::cache::command::RejectionReason::KeyDoesNotExist;
+use crate::cache::command::RejectionReason::{KeyAlreadyExists, KeyDoesNotExist};
 use crate::cache::expiration::TTLTicker;
 use crate::cache::key_description::KeyDescription;
 use crate::cache::policy::admission_policy::AdmissionPolicy;
@@ -227,6 +227,9 @@ impl<Key, Value> CommandExecutor<Key, Value>
     }
 
     fn put<DeleteHook>(put_parameters: PutParameter<Key, Value, DeleteHook>) -> CommandStatus where DeleteHook: Fn(Key) {
+        if put_parameters.store.is_present(put_parameters.key_description.key_ref()) {
+            return CommandStatus::Rejected(KeyAlreadyExists);
+        }
         let status = put_parameters.admission_policy.maybe_add(
             put_parameters.key_description,
             put_parameters.delete_hook,
@@ -244,6 +247,9 @@ impl<Key, Value> CommandExecutor<Key, Value>
     }
 
     fn put_with_ttl<DeleteHook>(put_with_ttl_parameter: PutWithTTLParameter<Key, Value, DeleteHook>) -> CommandStatus where DeleteHook: Fn(Key) {
+        if put_with_ttl_parameter.put_parameter.store.is_present(put_with_ttl_parameter.put_parameter.key_description.key_ref()) {
+            return CommandStatus::Rejected(KeyAlreadyExists);
+        }
         let status = put_with_ttl_parameter.put_parameter.admission_policy.maybe_add(
             put_with_ttl_parameter.put_parameter.key_description,
             put_with_ttl_parameter.put_parameter.delete_hook,
